@@ -29,7 +29,39 @@ def run_c20(ctx):
     cases, ncls = export_cases(ctx)
     stride, kwf, nrand = (2, 3, 5000) if ctx.quick else (1, 40, 150000)
     trace = ctx.path("pairs.ndjson")
-    C.run_bin(bindir, "asyncx", [abi, trace, cases, stride, kwf, nrand], env={"VERIF_SEED": ctx.seed}, timeout=3000)
+    import subprocess
+    e = dict(os.environ, VERIF_SEED=str(ctx.seed), RUST_BACKTRACE="0")
+    hr = subprocess.run([os.path.join(bindir, "asyncx")] + [str(a) for a in (abi, trace, cases, stride, kwf, nrand)], env=e,
+                        stdout=subprocess.PIPE, stderr=subprocess.PIPE, text=True, timeout=3000)
+    if hr.returncode != 0:
+        # the process died inside the code under test (abort after memory corruption, stack overflow, panic outside
+        # catch_unwind): a result, not a tool problem. The last "Run" line says which handler was running on which input.
+        last = None
+        try:
+            with open(trace) as f:
+                for line in f:
+                    try:
+                        r = json.loads(line)
+                    except Exception:
+                        continue
+                    if r.get("e") == "Run":
+                        last = r
+        except OSError:
+            pass
+        if last is None:
+            raise C.ToolError("asyncx exited %d before running anything: %s" % (hr.returncode, hr.stderr[-500:]))
+        ctx.violation("C20|%s|crash|%s-handler|%s" % (last["op"], last["side"], last["tr"]),
+                      {"exit": hr.returncode, "stderr": hr.stderr[-1500:], "input": last}, replay_src={"input": last, "seed": ctx.seed})
+        # keep what was recorded before the crash (drop the torn last line)
+        good = []
+        with open(trace) as f:
+            for line in f:
+                try:
+                    good.append(json.loads(line))
+                except Exception:
+                    pass
+        good.append({"e": "End"})
+        C.write_ndjson(trace, good)
     res = C.tlc_trace(ctx, "Trace_Async", trace, timeout=3000, xmx="8g")
     if not res["accepted"]:
         raise C.ToolError("pair trace not consumed")
